@@ -4,6 +4,7 @@ CONSTANTS
     CacheSound = FALSE
     MaxAlter = 1
     TamperFields = {"nextAvk"}
+    MsgModes = {"k"}
     ForgeEpochs = {3, 4}
     Forge2Pars = {"q"}
     ForgeKeys = {"A"}
